@@ -310,6 +310,11 @@ class SgzConverter(SgzReader):
             self.headerbytes = bytes(new_headerbytes)
             spec.format = 1
 
+        # The stored binary header may announce extended textual headers. Their content is not kept in
+        # SGZ files, but room must be left for them or the traces will not be where the header says.
+        spec.ext_headers = max(0, int.from_bytes(
+            self.headerbytes[DISK_BLOCK_BYTES+3504: DISK_BLOCK_BYTES+3506], byteorder='big', signed=True))
+
         self.write_segy(spec, out_file)
 
     def write_segy(self, spec, out_file):
